@@ -43,20 +43,21 @@ type Pair struct {
 
 // Field is one field of a packet or inline object.
 type Field struct {
-	Kind   Kind
-	Name   string // field name ("" for Obj/MetaRef means: same as Ref)
-	Type   string // Scalar/LenOf/Checksum: canonical basic type (u16…); FixStr: "char"|"zchar"; DynStr: "string"|"char[]"
-	N      int    // FixStr length
-	Pad    *Pad   // FixStr padding attribute (nil = none)
-	Repeat bool
-	Ref    string   // Obj: packet name; MetaRef: MetaData entry name; Inline: object name
-	Sub    []*Field // Inline members
-	Key    string   // Match: key field name
-	Pairs  []Pair   // Match table
-	Target string   // LenOf target field name
-	Algo   string   // Checksum algorithm literal including quotes
-	Doc    string   // doc string without back quotes ("" = absent)
-	Tag    int      // @tag(n) when > 0
+	Kind    Kind
+	Name    string // field name ("" for Obj/MetaRef means: same as Ref)
+	Type    string // Scalar/LenOf/Checksum: canonical basic type (u16…); FixStr: "char"|"zchar"; DynStr: "string"|"char[]"
+	N       int    // FixStr length
+	Pad     *Pad   // FixStr padding attribute (nil = none)
+	Repeat  bool
+	Ref     string   // Obj: packet name; MetaRef: MetaData entry name; Inline: object name
+	Sub     []*Field // Inline members
+	Key     string   // Match: key field name
+	Pairs   []Pair   // Match table
+	Target  string   // LenOf target field name
+	Algo    string   // Checksum algorithm literal including quotes
+	Doc     string   // doc string without back quotes ("" = absent)
+	Tag     int      // @tag(n) when > 0
+	TagLast bool     // write @tag(n) after the field's other prefix attributes instead of before them
 
 	// spelling choices (do not change meaning)
 	Alias      bool // spell the basic type with its long alias (uint16 for u16)
@@ -360,8 +361,14 @@ func optValueToks(v string) []string {
 
 func fieldToks(t []string, f *Field, sp Spans) []string {
 	start := len(t)
-	if f.Tag > 0 {
+	hasOtherPrefixAttr := (f.Kind == FixStr && f.Pad != nil) || ((f.Kind == LenOf || f.Kind == Checksum) && f.Prefixed)
+	if f.Tag > 0 && !(f.TagLast && hasOtherPrefixAttr) {
 		t = append(t, "@tag(", fmt.Sprint(f.Tag), ")")
+	}
+	tagLate := func() {
+		if f.Tag > 0 && f.TagLast && hasOtherPrefixAttr {
+			t = append(t, "@tag(", fmt.Sprint(f.Tag), ")")
+		}
 	}
 	doc := func() {
 		if f.Doc != "" {
@@ -385,6 +392,7 @@ func fieldToks(t []string, f *Field, sp Spans) []string {
 				t = append(t, f.Pad.Char)
 			}
 			t = append(t, ")")
+			tagLate()
 		}
 	}
 	switch f.Kind {
@@ -454,6 +462,7 @@ func fieldToks(t []string, f *Field, sp Spans) []string {
 		}
 		if f.Prefixed {
 			t = append(t, attr...)
+			tagLate()
 			t = append(t, spellBasic(f.Type, f.Alias), f.Name)
 		} else {
 			if !f.NoType {
